@@ -141,7 +141,7 @@ func run(sc *scenario) (coq string, tags []string, err error) {
 	clock := kit.NewClock()
 	var buckets irates.IBuckets
 	var rig *limiterRig
-	ref, fixed := newXSys(false), newXSys(true)
+	ref := newXSys()
 	if len(sc.Limits) > 0 {
 		if rig, err = deploy(sc.Limits, clock); err != nil {
 			return "", nil, err
@@ -150,7 +150,6 @@ func run(sc *scenario) (coq string, tags []string, err error) {
 		buckets = rig.buckets
 		for _, l := range sc.Limits {
 			ref.setDefault(l.Name, l.defaultState())
-			fixed.setDefault(l.Name, l.defaultState())
 		}
 	} else {
 		buckets = iratesce.Provide(clock)
@@ -162,7 +161,7 @@ func run(sc *scenario) (coq string, tags []string, err error) {
 	emit := func(at *big.Int, body string) {
 		evs = append(evs, fmt.Sprintf("Ev %s (%s)", at.String(), body))
 	}
-	// the observed outcome of one TakeTokens, followed on the faithful and on the repaired reference
+	// the observed outcome of one TakeTokens, followed on the exact reference
 	observeTake := func(o *opSpec, at *big.Int, keys []keySpec, n int64, ok bool, exc int) {
 		nref, explained, early, xok, xexc := ref.follow(at, keys, n, ok, exc)
 		if early {
@@ -174,13 +173,6 @@ func run(sc *scenario) (coq string, tags []string, err error) {
 			tagset[diffTag(nref, keys)] = true
 		}
 		ref = nref
-		nfixed, fexplained, _, _, _ := fixed.follow(at, keys, n, ok, exc)
-		if !fexplained {
-			for t := range classTags(nfixed, keys) {
-				tagset[t] = true
-			}
-		}
-		fixed = nfixed
 	}
 	for _, o := range sc.Ops {
 		if off+o.Dt < off || off+o.Dt > maxOffset {
@@ -196,7 +188,6 @@ func run(sc *scenario) (coq string, tags []string, err error) {
 		case "default":
 			buckets.SetDefaultBucketState(qname(o.Name), o.State.irates())
 			ref.setDefault(o.Name, *o.State)
-			fixed.setDefault(o.Name, *o.State)
 			emit(at, fmt.Sprintf("OSetDefault %d %s", o.Name, o.State.coq()))
 		case "take":
 			bks := make([]irates.BucketKey, len(o.Keys))
@@ -266,7 +257,6 @@ func run(sc *scenario) (coq string, tags []string, err error) {
 			_, applicable := reqKeys(sc.Limits, q)
 			for _, l := range applicable {
 				ref.set(at, l.keyOf(q), l.defaultState())
-				fixed.set(at, l.keyOf(q), l.defaultState())
 			}
 			emit(at, fmt.Sprintf("OResetLimits %s", q.coq()))
 		case "get":
@@ -274,25 +264,12 @@ func run(sc *scenario) (coq string, tags []string, err error) {
 			found := gerr == nil
 			s := fromIrates(st)
 			o.Obs.Found, o.Obs.State = &found, &s
-			differs := func(r *xsys, exactWhenClean bool) bool {
-				xfound, xs := r.get(at, *o.Key)
-				tol := uint32(1) // float truncation of burst - tokens
-				if b := r.buckets[*o.Key]; exactWhenClean && b != nil && b.lim.kind == xNorm {
-					if _, _, noisy := b.lim.avail(at); !noisy {
-						tol = 0 // whole tokens: the reported count is exact
-					}
-				}
-				return xfound != found || xs.Period != s.Period || xs.Max != s.Max || absDiff(xs.Taken, s.Taken) > tol
-			}
-			if differs(ref, false) {
+			xfound, xs := ref.get(at, *o.Key)
+			// +-1: float truncation of burst - tokens
+			if xfound != found || xs.Period != s.Period || xs.Max != s.Max || absDiff(xs.Taken, s.Taken) > 1 {
 				xdiff++
 				o.Obs.ExactDiff = "exact model: another state"
 				tagset[diffTag(ref, []keySpec{*o.Key})] = true
-			}
-			if differs(fixed, true) {
-				for t := range classTags(fixed, []keySpec{*o.Key}) {
-					tagset[t] = true
-				}
 			}
 			emit(at, fmt.Sprintf("OGet %s %s %s", o.Key.coq(), kit.Bool(found), s.coq()))
 		case "set":
@@ -303,12 +280,10 @@ func run(sc *scenario) (coq string, tags []string, err error) {
 				xdiff++
 				o.Obs.ExactDiff = "exact model: found differs"
 			}
-			fixed.set(at, *o.Key, *o.State)
 			emit(at, fmt.Sprintf("OSet %s %s %s", o.Key.coq(), o.State.coq(), kit.Bool(found)))
 		case "reset":
 			buckets.ResetRateBuckets(qname(o.Name), o.State.irates())
 			ref.reset(at, o.Name, *o.State)
-			fixed.reset(at, o.Name, *o.State)
 			emit(at, fmt.Sprintf("OReset %d %s", o.Name, o.State.coq()))
 		default:
 			return "", nil, fmt.Errorf("unknown op kind %q", o.Kind)
@@ -330,23 +305,6 @@ func run(sc *scenario) (coq string, tags []string, err error) {
 	}
 	coq = fmt.Sprintf("(mkTrace %d %s [%s])", xdiff, kit.List(lims), strings.Join(evs, ";\n "))
 	return coq, tags, nil
-}
-
-// classTags: the observed behaviour deviates from the repaired reference on buckets of a class the
-// unrepaired code mis-handles - the signature of findings F23 / F24
-func classTags(r *xsys, keys []keySpec) map[string]bool {
-	t := map[string]bool{}
-	for _, k := range keys {
-		if b, ok := r.buckets[k]; ok {
-			if b.subns {
-				t["F23:sub-ns-interval-bucket-is-unlimited"] = true
-			}
-			if b.overtaken {
-				t["F24:taken-above-count-leaves-bucket-full"] = true
-			}
-		}
-	}
-	return t
 }
 
 // an observable that no behaviour of the exact model explains is attributed to the configuration
